@@ -208,6 +208,25 @@ theorem createOrLoad_new {j : Journal} {t s : String} (hno : j.sessions.any (·.
         .handle ⟨j.nextSid, t, s, 1, 1⟩) := by
   simp only [createOrLoad, insSession, hno, Bool.false_eq_true, if_false]
 
+/-- the successful way through `persist_msg` -/
+theorem persist_ok {j : Journal} {msg : Bytes} {h : Handle} {dir : Dir} {n : Int}
+    (hn : findSeqNo msg = some n) (hres : (persist j msg h dir).2 = .none) :
+    fits n = true ∧ fits h.key = true ∧ j.msgs.any (·.isKey n h.key dir) = false ∧
+    (persist j msg h dir).1 =
+      updCounter { j with msgs := j.msgs ++ [⟨maxRowid j.msgs + 1, n, h.key, dir, msg⟩] } dir n h.key := by
+  unfold persist at hres ⊢
+  rw [hn] at hres ⊢
+  simp only at hres ⊢
+  by_cases hf : (!(fits n && fits h.key)) = true
+  · simp only [hf, if_true] at hres; cases hres
+  · have hf' : fits n = true ∧ fits h.key = true := by simpa using hf
+    simp only [hf, if_false, Bool.false_eq_true] at hres ⊢
+    by_cases hany : j.msgs.any (·.isKey n h.key dir) = true
+    · simp only [insMsg, hany, if_true] at hres; cases hres
+    · have hany' : j.msgs.any (·.isKey n h.key dir) = false := by simpa using hany
+      simp only [insMsg, hany', Bool.false_eq_true, if_false]
+      exact ⟨hf'.1, hf'.2, trivial, trivial⟩
+
 /-- the six ways through `set_seq_num` -/
 theorem setSeqNum_cases (j : Journal) (h : Handle) (out inn : Option Int) :
     (setSeqNum j h out inn = (j, .set h (some .assertion))) ∨
